@@ -467,15 +467,8 @@ class ReviseAnno:
             seed_stop (int): The value for the seed stop.
         """
         for hit_index in array_of_hits:
-            if (
-                self.search_frame.loc[
-                    hit_index,
-                ].Stop
-                > seed_stop
-            ):
-                seed_stop = self.search_frame.loc[
-                    hit_index,
-                ].Stop
+            if self.search_frame.loc[hit_index].Stop > seed_stop:
+                seed_stop = self.search_frame.loc[hit_index].Stop
         return seed_stop
 
     @staticmethod
